@@ -460,7 +460,14 @@ func (wk *worker) classify(long *database.Store, cs []mcall, i int, got, fresh o
 		return "stale-after-" + wk.lastWrite(cs, i, "main", "")
 	case "getbyheight", "getfromnode":
 		if got.Ok && fresh.Ok && slOnly(got.List, fresh.List) {
-			return "stale-header-after-" + wk.lastWrite(cs, i, "header", "")
+			blk := "" // the block whose merged supLinks differ: its header is the stale one
+			for k := range got.List {
+				if got.List[k] != fresh.List[k] {
+					blk = got.List[k][:strings.Index(got.List[k], "/")]
+					break
+				}
+			}
+			return "stale-header-after-" + wk.lastWrite(cs, i, "header", blk)
 		}
 		return "stale-checkpoint-record-after-" + wk.lastWrite(cs, i, "checkpoint", "")
 	}
